@@ -22,8 +22,8 @@ func (f *fuzzRun) viol(fd finding, fm fuzzMsg) {
 	fd.Detail["fuzz_tag"] = fm.Tag
 	fd.Detail["batch"] = f.e.spec
 	fd.Detail["replay_msgs"] = []string{hex.EncodeToString(trunc(fm.Msg, 1<<16))}
-	// the signature names the message class, never the bytes
-	f.e.b.Violation(fd.Sig+":"+fm.Tag, fd.What, fd.Detail)
+	// the signature names the oracle and the operation, never the bytes
+	f.e.b.Violation(fd.Sig, fd.What, fd.Detail)
 }
 
 func trunc(b []byte, n int) []byte {
@@ -137,11 +137,15 @@ func lastTypeOf(rs []*reply) string {
 	return rs[len(rs)-1].Type
 }
 
-func runFuzz(e *env, r *vlib.Rand, n int) {
+func runFuzz(e *env, r *vlib.Rand, n int, avoid map[string]bool) {
 	c := newClient(e, 0)
 	f := &fuzzRun{e: e, c: c}
 	for i := 0; i < n && !e.aborted; i++ {
 		fm := e.genFuzz(r, i)
+		if avoid["fuzzclass/"+fm.Class] {
+			e.b.Count("steps_avoided", 1)
+			continue
+		}
 		if !f.one(fm) {
 			break
 		}
